@@ -40,6 +40,11 @@ def scenarios(rnd, tier):
         out.append("tg " + ",".join(ops))
     out += ["tg a:221:%s,a:0:%s,s:%s" % ("5a" * 256, "41" * 255, "42" * 300),
             "gen beacon a1=000000000000 a2=000000000000 a3=000000000000 ssid=%s ch=6 clk=1:0 ops=s:%s" % ("41" * 256, "43" * 300)]
+    # action details: every growing append (realloc of a non-empty detail) refused in turn - a refused append must keep
+    # what earlier appends stored; also after a clear, and with an empty append in between
+    for kind in ("action", "action_noack"):
+        for ops in ("d:0102,d:0304", "d:01,d:02,d:03", "d:%s,d:%s,d:05" % ("33" * 100, "44" * 100), "d:01,f,d:02,d:03", "d:01,d:-,d:02", "d:01,d:02,f,d:03"):
+            out.append("gen %s a1=020000000001 a2=020000000002 a3=020000000003 cat=%d ops=%s" % (kind, rnd.choice([0, 4, 127, 221]), ops))
     # parsers on accepted frames with and without radiotap
     for kind in frames.PARSABLE:
         for mode in range(3):
